@@ -32,16 +32,36 @@ pub fn roundtrip<const L: usize, const SEALS: u8, const P: u8>() {
     let j: usize = kani::any();
     let fill: u8 = kani::any();
     let mut b = Message::builder(mt, t.into());
-    b.add_raw_attribute(RawAttribute::new(AttributeType::new(at), &val)).unwrap();
+    if b.add_raw_attribute(RawAttribute::new(AttributeType::new(at), &val)).is_err() {
+        // (no unwrap: with a symbolic attribute type the Err arm is feasible for CBMC and unwrap_failed drags
+        // the whole Debug formatting machinery into the query -- 30+ minutes)
+        assert!(false, "C11:builder-refused-an-operation-the-ordering-rules-allow");
+        return;
+    }
     let cr = creds();
     if SEALS & S_MI != 0 {
-        b.add_message_integrity(&cr, IntegrityAlgorithm::Sha1).unwrap();
+        if b.add_message_integrity(&cr, IntegrityAlgorithm::Sha1).is_err() {
+            // (no unwrap: with a symbolic attribute type the Err arm is feasible for CBMC and unwrap_failed drags
+            // the whole Debug formatting machinery into the query -- 30+ minutes)
+            assert!(false, "C11:builder-refused-an-operation-the-ordering-rules-allow");
+            return;
+        }
     }
     if SEALS & S_SHA != 0 {
-        b.add_message_integrity(&cr, IntegrityAlgorithm::Sha256).unwrap();
+        if b.add_message_integrity(&cr, IntegrityAlgorithm::Sha256).is_err() {
+            // (no unwrap: with a symbolic attribute type the Err arm is feasible for CBMC and unwrap_failed drags
+            // the whole Debug formatting machinery into the query -- 30+ minutes)
+            assert!(false, "C11:builder-refused-an-operation-the-ordering-rules-allow");
+            return;
+        }
     }
     if SEALS & S_FP != 0 {
-        b.add_fingerprint().unwrap();
+        if b.add_fingerprint().is_err() {
+            // (no unwrap: with a symbolic attribute type the Err arm is feasible for CBMC and unwrap_failed drags
+            // the whole Debug formatting machinery into the query -- 30+ minutes)
+            assert!(false, "C11:builder-refused-an-operation-the-ordering-rules-allow");
+            return;
+        }
     }
     let want_len = 20 + 4 + pad4(L) + seal_len(SEALS);
     let bytes = b.build();
